@@ -153,6 +153,7 @@ def run(tier):
             ck.cov['traces_validated_against_impl'] += 1
     cli_leg(ck, tier, rnd)
     targets_leg(ck, tier, rnd)
+    repeated_policy_leg(ck, rnd)
     seeds_leg(ck, tier)
     ck.cov['rule'] = ('TLC: every call sequence up to length %d over 12 buffer calls x 12 option sets, replayed into OutputBuffer; CLI: 8 peers covering every severity mix x '
                       '{-b} x {-v} x {-n} x -l {info,warn,fail} x {text,-j,-jj} with expected findings/status from TLC (SshRating); repeated runs and 8 hash seeds in fresh '
@@ -308,6 +309,47 @@ def targets_leg(ck, tier, rnd):
         else:
             ck.cov['traces_validated_against_impl'] += 1
             ck.nontrivial(('targets', threads, o))
+
+
+def repeated_policy_leg(ck, rnd):
+    """The same server listed several times in one policy audit (-T -P): repeated audits of the same peer are identical - each
+    element of the JSON array (and each text block) is the same, in every output format."""
+    from checks import multi, c06
+    P = peers_for(rnd)
+    c = mk(990, P[2])
+    pol = {'banner': '', 'comp': [], 'opt': [], 'has': ['key', 'kex', 'enc', 'mac'], 'subset': False, 'larger': False, 'dhs': {}, 'hks': {},
+           'key': list(c['key']), 'kex': list(c['kex']), 'enc': list(c['enc'])[:1], 'mac': ['hmac-sha2-512']}
+    tg = [('server', rating.server_cfg(c))] * 3
+    scs = []
+    for fmt in ('-j', '-jj', '-n', '-b'):
+        sc, labels = multi.scenario(tg, 1, (0, 1, 2), json_out=True, extra=['-P', '{tmp}/policy.txt'])
+        sc['argv'] = [fmt if a == '-j' else a for a in sc['argv']] + ([] if fmt.startswith('-j') else [])
+        if fmt == '-b':
+            sc['argv'] = ['-n'] + sc['argv']
+        sc['files']['policy.txt'] = c06.policy_text(pol)
+        scs.append((sc, fmt))
+    for (sc, fmt), r in zip(scs, runner.run_many([x[0] for x in scs])):
+        ck.evaluated()
+        if r.get('harness_error') or r.get('hang'):
+            raise common.Machinery('repeated-target policy run failed: %r' % (r.get('harness_error') or 'hang'))
+        replay = {'argv': sc['argv'], 'exit': r['exit'], 'stdout': r['stdout'][-2500:]}
+        if fmt.startswith('-j'):
+            try:
+                doc = json.loads(r['stdout'])
+                els = [{k: v for k, v in el.items() if k not in ('host', 'port', 'target')} for el in doc]
+            except (ValueError, AttributeError):
+                ck.violation('repeated-target-json-unparsable', 'stdout of -T %s -P is not a JSON array of documents' % fmt, replay)
+                continue
+        else:
+            import re
+            els = [re.sub(r'^Host: .*$', 'Host: X', multi.strip_target_line(b), flags=re.M).strip() for b in multi.split_text(r['stdout'])]
+        if len(els) != 3 or any(e != els[0] for e in els[1:]):
+            ck.violation('repeated-audits-differ format=%s' % fmt.lstrip('-'), 'the same server listed three times in a policy audit: the %d results are not identical' % len(els), replay)
+        elif r['exit'] != 3:
+            ck.violation('repeated-audits-status', 'a policy audit of a violating server exits %r' % r['exit'], replay)
+        else:
+            ck.cov['traces_validated_against_impl'] += 1
+            ck.nontrivial(('repeated-policy', fmt))
 
 
 def _optkind(o):
